@@ -192,14 +192,16 @@ def _bl_ens(S, a, r):
 def _bl_gen(rng, tier):
     spr = 4
     for _ in range(300 if tier == "quick" else 20000):
-        rows = []
-        t = 0
-        for p in range(rng.randint(1, 3)):
-            ch = rng.randint(0, 2)
-            for fi in range(rng.randint(1, 3)):
-                ln = rng.randint(1, spr)
-                rows.append((t, ch, fi, ln, 1, tuple(rng.randint(95, 105) for _ in range(ln))))
-                t += spr
+        # pulses of several channels, their fragments interleaved in time (A0 B0 A1 B1 ...)
+        pulses = []
+        for ch in rng.sample(range(3), rng.randint(1, 3)):
+            base = rng.choice((90, 100, 117))
+            n_frag = rng.randint(1, 3)
+            t0 = rng.randint(0, 3)
+            pulses.append([(t0 + spr * fi, ch, fi, rng.randint(1, spr), 1,
+                            tuple(base + rng.randint(-3, 3) for _ in range(spr))) for fi in range(n_frag)])
+        rows = sorted((r for p in pulses for r in p), key=lambda r: (r[0], r[1]))
+        rows = [(t, ch, fi, ln, dt, data[:ln]) for t, ch, fi, ln, dt, data in rows]
         yield dict(records=make_records(rows, spr), baseline_samples=rng.randint(1, 4), flip=rng.random() < 0.5)
 
 
@@ -211,7 +213,8 @@ baseline = Contract(
     F, "baseline", params=dict(records=RowsT(), baseline_samples="int", flip="bool"),
     ensures=_bl_ens, raises={},
     harness=Harness(native=_bl_native, gen=_bl_gen,
-                    scope="random pulses of 1..3 fragments x 1..3 channels, baseline window 1..4 samples, flip on/off",
+                    scope="random pulses of 1..3 fragments in 1..3 channels with different baselines, fragments of different "
+                          "channels interleaved in time, baseline window 1..4 samples, flip on/off",
                     nontrivial=lambda i: len(i["records"]) >= 1))
 
 
